@@ -42,8 +42,6 @@ Init ==
   /\ hand = [done |-> FALSE, h |-> 0, honestInPool |-> FALSE]
   /\ viol = {} /\ drift = {}
 
-RECURSIVE Concat(_)
-Concat(s) == IF Len(s) = 0 THEN "" ELSE s[1] \o Concat(Tail(s))
 
 VAt(h) == IF h >= 1 /\ h <= Len(TraceVals) THEN TraceVals[h] ELSE << >>
 
